@@ -191,8 +191,9 @@ def ob_rib_out(lp: int, p0: int, sel: int, ver: int) -> bool:
     return (v2 > ver) if changed else (v2 == ver)
 
 
-FLOW_RULES = [{1: '192.88.3.0/24', 2: '192.89.3.0/24'}, {1: '10.0.0.0/8', 5: '=80'}]
-VPN_ROUTES = [{'label': [25], 'rd': '100:100', 'prefix': '170.0.0.0/32'}, {'label': [26], 'rd': '100:100', 'prefix': '170.0.1.0/24'}]
+FLOW_RULES = [{1: '192.88.3.0/24', 2: '192.89.3.0/24'}, {1: '10.0.0.0/8', 5: '=80'}, {1: '172.16.0.0/12'}]
+VPN_ROUTES = [{'label': [25], 'rd': '100:100', 'prefix': '170.0.0.0/32'}, {'label': [26], 'rd': '100:100', 'prefix': '170.0.1.0/24'},
+              {'label': [27], 'rd': '100:101', 'prefix': '170.0.0.0/32'}]
 
 
 def ob_family_version(m1: int, m2: int) -> bool:
@@ -232,9 +233,18 @@ def ob_family_version(m1: int, m2: int) -> bool:
     elif second == 2:
         w.ev_data(unreach(items[0]))
         exp = v1 + 1
-    else:
+    elif second == 3:
         w.ev_data(unreach(items[1]))
         exp = v1
+    else:
+        # one UPDATE that announces the other rule and withdraws the present one (4) / an absent one (5)
+        gone = dict(items[0] if second == 4 else items[2])
+        if fam != 'flowspec':
+            gone['label'] = [524288]
+        w.ev_data(Update.construct({'attr': {1: 0, 2: [], 4: m2,
+                                             14: {'afi_safi': afi_safi, 'nexthop': nh, 'nlri': [items[1]]},
+                                             15: {'afi_safi': afi_safi, 'withdraw': [gone]}}}, True))
+        exp = v1 + (2 if second == 4 else 1)
     cover('second')
     return p.receive_version[key] == exp and w.state == S.ESTABLISHED and \
         [h[0] for h in w.handler.log].count('on_update_error') == 0
@@ -256,7 +266,7 @@ def obligations(tier, seed):
             out.append(ob('C19/rib-out/%s/present=%s' % (mode, ''.join('1' if x else '0' for x in present)), 'ob_rib_out',
                           {'mode': mode, 'present': present}, covers=['called'], cap=280 if quick else 800))
     for fam in ('flowspec', 'vpnv4'):
-        for second in range(4):
+        for second in range(6):
             out.append(ob('C19/version/%s/second=%d' % (fam, second), 'ob_family_version', {'family': fam, 'second': second},
                           covers=['second'], cap=280 if quick else 800))
     return out
